@@ -237,6 +237,7 @@ def c14(ctx):
     real_gpg(ctx, r, quick)
     failing_signer(ctx)
     no_signing_environment(ctx, r, quick)
+    sign_argv(ctx)
 
 
 def failing_signer(ctx):
@@ -486,3 +487,33 @@ def no_signing_environment(ctx, r, quick):
     finally:
         shutil.rmtree(td, ignore_errors=True)
     ctx.count('pgp:no-signing-environment', st['runs'], st['runs'], dist=st)
+
+
+def sign_argv(ctx):
+    """the requested key reaches the backend as it was given: one --local-user argument carrying the whole key id (a user ID may hold white
+    space: 'Name Words', 'Name <mail>', a fingerprint in groups), none when no key is requested; the text to sign goes to its standard input"""
+    import io
+    import p_pgp
+    import gemato.openpgp as go
+    env = go.SystemGPGEnvironment()
+    n = 0
+    for keyid in (None, '0x136880E72A7B1384', 'Gentoo Release Signing', 'Name <mail@example.org>', '81E1 2C16 BD8D CD60 BE18  0845 1368 80E7 2A7B 1384',
+                  'tab\tid', ' padded ', 'a,b', '=exact uid', b'0x136880E72A7B1384'):
+        p_pgp.FakePopen.calls.clear()
+        p_pgp.FakePopen.reply = (0, b'-----BEGIN PGP SIGNED MESSAGE-----\n(stand-in)\n', b'')
+        out = io.StringIO()
+        with p_pgp.fake_popen():
+            try:
+                env.clear_sign_file(io.StringIO('DATA a 0\n'), out, keyid=keyid)
+                err = None
+            except Exception as e:
+                err = repr(e)[:120]
+        n += 1
+        argv = p_pgp.FakePopen.calls[0]['argv'] if p_pgp.FakePopen.calls else None
+        want_tail = ['--local-user', keyid] if keyid is not None else []
+        lu = [a for k, a in enumerate(argv or []) if k and argv[k - 1] == '--local-user']
+        if err or argv is None or len(p_pgp.FakePopen.calls) != 1 or lu != want_tail[1:] or argv.count('--local-user') != len(want_tail) // 2 \
+                or '--clearsign' not in argv:
+            ctx.violation('spec', f'signing with key id {keyid!r}: the backend is run as {argv} ({err or "no error"}); the requested key must arrive as one '
+                          '--local-user argument, unchanged (none when no key is requested)', {'keyid': repr(keyid), 'argv': [repr(a) for a in (argv or [])], 'error': err})
+    ctx.count('pgp:sign-argv', n, n)
